@@ -7,7 +7,7 @@ From Coq Require Import List NArith ZArith Bool Arith Permutation.
 Import ListNotations.
 From PyGql Require Import Exec.RuntimeFutures Exec.RuntimeMachine
   Proofs.RuntimeFuturesProofs Proofs.RuntimeMachineProofs Proofs.RuntimeMachineWf
-  Proofs.RuntimeBlockingProofs.
+  Proofs.RuntimeBlockingProofs Proofs.RuntimeProgressProofs Proofs.RuntimeRefineProofs.
 
 (* ---- layer 1 ---- *)
 
@@ -203,6 +203,101 @@ Theorem C08_blocking_configs_fail :
     pending (ms s) = [] /\ exists x, term s = Exn x /\ In x (raised (ms s)).
 Proof. exact blocking_runtime_fails. Qed.
 Print Assumptions C08_blocking_configs_fail.
+
+(* ---- existence: the theorems above are vacuous for no program ---- *)
+
+(* while some submitted task is pending there is an admissible next step *)
+Theorem C08_progress :
+  forall s, pending (ms s) <> [] -> exists t s', In t (pending (ms s)) /\ step s t = Some s'.
+Proof. exact progress. Qed.
+Print Assumptions C08_progress.
+
+(* every admissible schedule is at most as long as the number of resolver calls
+   the program can hand to the runtime (its deferred fields, with their nesting
+   levels, over all list items): repeated stepping terminates *)
+Theorem C08_schedule_bounded :
+  forall sigma pr s, run sigma pr = Some s -> length sigma <= wt_prog pr.
+Proof. exact schedule_bounded. Qed.
+Print Assumptions C08_schedule_bounded.
+
+(* every program has an admissible complete schedule *)
+Theorem C08_complete_schedule_exists :
+  forall pr, exists sigma s, run sigma pr = Some s /\ pending (ms s) = [] /\ length sigma <= wt_prog pr.
+Proof. exact complete_schedule_exists. Qed.
+Print Assumptions C08_complete_schedule_exists.
+
+(* ---- the link between the layers, per combinator as layer 2 uses it ----
+   (what remains assumed is listed at the top of Proofs/RuntimeRefineProofs.v) *)
+
+(* gather_futures refines to the layer-2 Gather node: for every set of sources
+   already finished when it is called and every completion sequence of the
+   others, the state of [outer] in the layer-1 heap is the image (abs_fstate) of
+   the state the layer-2 node reaches when the same children are completed in
+   the same order by gnode_step = gather_norm after the child became done, which
+   is what [fire] does at a Gather node *)
+Theorem C08_refine_gather :
+  forall apply_fn apply_handler fuel h source results (was_done : fid -> bool) sigma,
+    3 <= fuel ->
+    fids_of source <> [] -> NoDup (fids_of source) ->
+    (forall f, In f (fids_of source) ->
+       futs h f = (if was_done f then Done (results f) else Pending []) /\ f < next_fid h) ->
+    blocked h = false -> out_of_fuel h = false ->
+    NoDup sigma -> incl sigma (filter (fun f => negb (was_done f)) (fids_of source)) ->
+    exists outer h1,
+      gather apply_fn apply_handler fuel h source = (Ret (VFut outer), h1) /\
+      let hs := fold_left (fun h f => complete apply_fn apply_handler fuel h f (results f)) sigma h1 in
+      let donel := filter was_done (fids_of source) in
+      fold_left (gnode_step results) sigma (gnode_norm (children results source donel)) =
+      abs_fstate (futs hs outer) (children results source (donel ++ sigma)).
+Proof. exact gather_refines. Qed.
+Print Assumptions C08_refine_gather.
+
+Theorem C08_refine_gather_fire :
+  forall t ds st, fire t (Gather ds) st = let '(ds', st1) := fire_list t ds st in gather_norm ds' st1.
+Proof. exact fire_at_gather. Qed.
+Print Assumptions C08_refine_gather_fire.
+
+(* chain refines to the layer-2 Bind node: the result C08_chain / C08_chain_done
+   give the target, read as a term, is the Bind transition (value: the
+   continuation runs; failure: it propagates) whenever the continuation k2 is the
+   abstraction of then_; with resolve_field's else_ clause a handled exception
+   (ResolverError) becomes the handler's value and any other one propagates *)
+Theorem C08_refine_chain :
+  forall apply_fn apply_handler r then_ (k2 : val -> D),
+    (forall v, r2 (apply_fn then_ v) = k2 (v2 v)) ->
+    r2 (chain_result apply_fn apply_handler r then_ None) = bind2 (r2 r) k2.
+Proof. exact chain_refines_plain. Qed.
+Print Assumptions C08_refine_chain.
+
+Theorem C08_refine_chain_else :
+  forall apply_fn apply_handler n then_ hd els,
+    chain_result apply_fn apply_handler (RExn (EUser n true)) then_ (Some hd) =
+      RVal (apply_handler hd (EUser n true)) /\
+    chain_result apply_fn apply_handler (RExn (EUser n false)) then_ els = RExn (EUser n false).
+Proof.
+  intros. split; [apply chain_refines_handled|apply chain_refines_unhandled].
+Qed.
+Print Assumptions C08_refine_chain_else.
+
+(* unwrap_future refines to a layer-2 Task with nesting levels: completing the
+   first j members of the nest (the only orders layer 2 admits, the next level
+   being submitted when the previous one completes) leaves [outer] pending exactly
+   as long as the layer-2 node is not a value *)
+Theorem C08_refine_unwrap :
+  forall apply_fn apply_handler fuel h res ss j,
+    is_nest res ss -> NoDup ss ->
+    (forall s, In s ss -> futs h s = Pending [] /\ s < next_fid h) ->
+    length ss + 1 < fuel -> j <= length ss ->
+    exists h1,
+      unwrap apply_fn apply_handler fuel h (VFut (hd 0 ss)) = (VFut (next_fid h), h1) /\
+      let hs := fold_left (fun h f => complete apply_fn apply_handler fuel h f (res f)) (firstn j ss) h1 in
+      let node := fst (fold_left (fun ds u => fire u (fst ds) (snd ds))
+                                 (firstn j (level_tids ([], O) (length ss - 1)))
+                                 (Task ([], O) (length ss - 1), st0)) in
+      (j = length ss -> futs hs (next_fid h) = Done (final res ss) /\ node = Val VNull) /\
+      (j < length ss -> futs hs (next_fid h) = Pending [] /\ is_done node = false).
+Proof. exact unwrap_refines. Qed.
+Print Assumptions C08_refine_unwrap.
 
 (* ---- non-vacuity ---- *)
 Local Open Scope N_scope.
